@@ -179,7 +179,7 @@ func RunProperty(p *Program, prop *Property, tier string, res *Result) {
 	}
 	res.Obs = append(res.Obs, c.Obs...)
 	res.Configs = append(res.Configs, p.Cfg.String())
-	res.Renames = p.RenameNotes()
+	res.Renames = append(append([]string{}, p.RenameNotes()...), p.NormNotes...)
 }
 
 // Finish classifies, prints and writes evidence. Returns the exit code.
